@@ -283,6 +283,11 @@ class Gen:
         lines.append("        k1,")
         lines.append("        k2,")
         lines.append("    }")
+        if base is not None and self.o.get("hash_shapes"):
+            bq = self.qual(proj, base)
+            lines += ["    enum Code: logic<8> {", f"        c0 = {bq}::W,", f"        c1 = {bq}::W + 1,",
+                      f"        c2 = {bq}::K{base.name[3:]} + 40,", "    }"]
+            self.feature("enum-values-from-other-package")
         lines.append("    function inc (")
         lines.append("        a: input logic<W>,")
         lines.append("    ) -> logic<W> {")
@@ -329,8 +334,64 @@ class Gen:
         lines = [f"{'pub ' if it.pub else ''}interface {it.name} {{"] + pre
         lines += [f"    var d: logic<{width}>;", "    var v: logic;",
                   "    modport mst {", "        d: output,", "        v: output,", "    }",
-                  "    modport slv {", "        d: input,", "        v: input,", "    }", "}"]
+                  "    modport slv {", "        d: input,", "        v: input,", "    }"]
+        it.attr["mps"] = ["slv"]
+        if self.o.get("hash_shapes"):
+            # modports whose member list is completed from a default direction / another modport
+            lines += ["    modport ain {", "        ..input", "    }",
+                      "    modport aout {", "        ..output", "    }",
+                      "    modport rel {", "        ..same(mst)", "    }",
+                      "    modport cnv {", "        ..converse(mst)", "    }",
+                      "    modport part {", "        d: output,", "        ..input", "    }"]
+            it.attr["mps"] = ["slv", "ain", "cnv"]
+            self.feature("modport-default-direction")
+        lines.append("}")
         it.body = lines
+        return it
+
+    def make_mixiface(self, proj, idx):
+        """An interface that mixes in an interface of (usually) another file and re-exports its modports."""
+        r = self.rng
+        srcs = [x for x in self.visible(proj, ("iface",)) if x.proj is proj]
+        if not srcs:
+            return None
+        src = r.pick(srcs)
+        it = self.new_item("mixiface", f"Mx{idx}", proj)
+        it.refs.append((src, "mixin"))
+        it.attr["W"] = src.attr["W"]
+        it.attr["extra"] = ["c"]
+        it.attr["mps"] = ["mi", "mc"]
+        it.body = [f"{'pub ' if it.pub else ''}interface {it.name} {{", f"    mixin {self.qual(proj, src)};",
+                   "    var c: logic<3>;",
+                   "    modport mm {", "        c: output,", "        ..same(mst)", "    }",
+                   "    modport mc {", "        c: input,", "        ..converse(mst)", "    }",
+                   "    modport mi {", "        ..input", "    }",
+                   "    modport mo {", "        ..output", "    }",
+                   # re-export source modports that are themselves completed from a default direction
+                   "    modport ms {", "        c: output,", "        ..same(ain)", "    }",
+                   "    modport mv {", "        c: input,", "        ..converse(aout)", "    }",
+                   "    modport mr {", "        ..same(rel, part)", "    }", "}"]
+        it.attr["mps"] = ["mi", "mc", "mv"]
+        self.feature("mixin-interface")
+        if src.file is not self.cur_file:
+            self.feature("mixin-interface-across-files")
+        return it
+
+    def make_giface(self, proj, idx):
+        it = self.new_item("giface", f"GIf{idx}", proj)
+        it.attr["mps"] = ["slv"]
+        it.attr["generic"] = True
+        it.body = [f"{'pub ' if it.pub else ''}interface {it.name}::<N: u32> {{", "    var d: logic<N>;", "    var v: logic;",
+                   "    modport mst {", "        d: output,", "        v: output,", "    }",
+                   "    modport slv {", "        ..input", "    }", "}"]
+        self.feature("generic-interface")
+        return it
+
+    def make_gpackage(self, proj, idx):
+        it = self.new_item("gpackage", f"GP{idx}", proj)
+        it.body = [f"{'pub ' if it.pub else ''}package {it.name}::<N: u32> {{", "    const W: u32 = N;",
+                   "    type word = logic<N>;", "}"]
+        self.feature("generic-package")
         return it
 
     def make_gconst(self, proj, idx):
@@ -353,7 +414,7 @@ class Gen:
         self.feature("generic-proto-module")
         return it
 
-    def make_mod(self, proj, idx, fileimports, kind="mod", name=None):
+    def make_mod(self, proj, idx, fileimports, kind="mod", name=None, force_modp=None):
         """A module: optional modport port, package members, sub-instances."""
         r = self.rng
         it = self.new_item(kind, name or f"Mod{idx}", proj)
@@ -362,13 +423,17 @@ class Gen:
         n = 0
         terms = []
         modp = None
-        if kind == "mod" and r.chance(1, 3):
-            ifs = self.visible(proj, ("iface",))
+        if kind == "mod" and (force_modp is not None or r.chance(1, 3)):
+            ifs = self.visible(proj, ("iface", "mixiface", "giface"))
             if ifs:
-                modp = r.pick(ifs)
+                modp = force_modp if force_modp is not None else r.pick(ifs)
                 it.refs.append((modp, "modport"))
                 it.attr["modport"] = modp
+                it.attr["mp_name"] = r.pick(modp.attr.get("mps", ["slv"]))
+                it.attr["mp_args"] = f"::<{r.range(2, 4)}>" if modp.attr.get("generic") else ""
                 self.feature("modport-port")
+                if modp.kind != "iface" or it.attr["mp_name"] != "slv":
+                    self.feature("modport-port-" + modp.kind + "-" + it.attr["mp_name"])
         # package members
         for _ in range(r.below(3)):
             p, pref = self.pkg_ref(it, proj, fileimports, pre)
@@ -391,6 +456,23 @@ class Gen:
                 body.append(f"    let t{n}: logic<C{n}> = 1;")
                 terms.append(f"t{n}")
             n += 1
+        if self.o.get("hash_shapes"):
+            for g in self.visible(proj, ("giface", "gpackage")):
+                if not r.chance(2, 3):
+                    continue
+                arg = r.range(2, 5)
+                it.refs.append((g, "generic-inst"))
+                if g.kind == "giface":
+                    body.append(f"    inst gb{n}: {self.qual(proj, g)}::<{arg}>;")
+                    body.append(f"    assign gb{n}.d = {r.below(4)};")
+                    body.append(f"    assign gb{n}.v = {r.below(2)};")
+                    terms.append(f"gb{n}.d")
+                    self.feature("generic-interface-instance")
+                else:
+                    body.append(f"    let t{n}: {self.qual(proj, g)}::<{arg}>::word = {r.below(4)};")
+                    terms.append(f"t{n}")
+                    self.feature("generic-package-instance")
+                n += 1
         # instances
         cands = self.visible(proj, ("mod", "gconst", "gpkg"))
         if kind in ("test", "example"):
@@ -414,9 +496,11 @@ class Gen:
                 if mp is not None:
                     # the sub-module has a modport port: instantiate the interface here
                     it.refs.append((mp, "inst-iface"))
-                    body.append(f"    inst b{n}: {self.qual(proj, mp)};")
+                    body.append(f"    inst b{n}: {self.qual(proj, mp)}{c.attr.get('mp_args', '')};")
                     body.append(f"    assign b{n}.d = {r.below(4)};")
                     body.append(f"    assign b{n}.v = 1;")
+                    for extra in mp.attr.get("extra", []):
+                        body.append(f"    assign b{n}.{extra} = {r.below(4)};")
                     conns.append(f"p: b{n}")
                     self.feature("interface-instance")
                 conns.append(f"i: {r.below(2 ** min(wi, 4))}" if not terms or r.bool() else f"i: {r.pick(terms)}")
@@ -485,7 +569,7 @@ class Gen:
         if kind == "mod":
             hdr = [f"{'pub ' if it.pub else ''}module {it.name} ("]
             if modp is not None:
-                hdr.append(f"    p: modport {self.qual(proj, modp)}::slv,")
+                hdr.append(f"    p: modport {self.qual(proj, modp)}{it.attr.get('mp_args', '')}::{it.attr.get('mp_name', 'slv')},")
                 terms.append("(if p.v ? p.d : 0)")
             hdr += [f"    i: input  logic<{wi}>,", f"    o: output logic<{wo}>,", ") {"]
             expr = " ^ ".join(["i"] + terms)
@@ -550,7 +634,23 @@ class Gen:
             for _ in range(nitems):
                 k = r.below(100)
                 it = None
-                if fi == 0 and not f.items and r.chance(1, 3):
+                forced = None
+                if self.o.get("hash_shapes") and proj.is_root and not f.items:
+                    # every root project gets the shape family at least once, spread over different files
+                    forced = {1: "iface", 2: "giface", 3: "mixiface", 4: "modmix"}.get(fi)
+                if forced == "iface":
+                    it = self.make_iface(proj, counters["iface"], f.file_imports); counters["iface"] += 1
+                elif forced == "mixiface":
+                    it = self.make_mixiface(proj, counters["iface"])
+                    if it is not None:
+                        counters["iface"] += 1
+                elif forced == "modmix":
+                    mx = [x for x in proj.items if x.kind == "mixiface"]
+                    it = self.make_mod(proj, counters["mod"], f.file_imports, force_modp=mx[-1] if mx else None)
+                    counters["mod"] += 1
+                elif forced == "giface":
+                    it = self.make_giface(proj, counters["gen"]); counters["gen"] += 1
+                elif fi == 0 and not f.items and r.chance(1, 3):
                     it = self.make_proto(proj, counters["proto"]); counters["proto"] += 1
                 elif fi == 0 or k < 22:
                     it = self.make_pkg(proj, counters["pkg"]); counters["pkg"] += 1
@@ -564,6 +664,14 @@ class Gen:
                     it = self.make_gpkg(proj, counters["gen"])
                     if it is not None:
                         counters["gen"] += 1
+                elif self.o.get("hash_shapes") and k < 66:
+                    it = self.make_mixiface(proj, counters["iface"])
+                    if it is not None:
+                        counters["iface"] += 1
+                elif self.o.get("hash_shapes") and k < 72:
+                    it = self.make_giface(proj, counters["gen"]); counters["gen"] += 1
+                elif self.o.get("hash_shapes") and k < 77:
+                    it = self.make_gpackage(proj, counters["gen"]); counters["gen"] += 1
                 elif k < 62 and proj.is_root and self.o.get("tests", True):
                     it = self.make_mod(proj, counters["test"], f.file_imports, kind="test",
                                        name=f"test_{proj.name}_{counters['test']}")
@@ -573,6 +681,11 @@ class Gen:
                 f.items.append(it)
                 proj.items.append(it)
                 self.u.items.append(it)
+                if forced == "giface":
+                    gp = self.make_gpackage(proj, counters["gen"]); counters["gen"] += 1
+                    f.items.append(gp)
+                    proj.items.append(gp)
+                    self.u.items.append(gp)
             if len(f.items) > 1:
                 self.feature("multi-item-file")
             proj.files.append(f)
